@@ -12,9 +12,10 @@ rsync -a --exclude .git "$SRC"/ "$SCR/src/" || exit 2
 if [ ! -x "$HERE/bin/instrument" ] || [ "$HERE/instrument/main.go" -nt "$HERE/bin/instrument" ]; then
   (cd "$HERE/instrument" && $GO build -o "$HERE/bin/instrument" .) || { echo "build.sh: instrumenter build failed" >&2; exit 2; }
 fi
-mkdir -p "$SCR/src/zzsimrt" "$SCR/src/zzsimharness"
+mkdir -p "$SCR/src/zzsimrt" "$SCR/src/zzsimharness" "$SCR/src/zzconstructs"
+cp "$HERE"/constructs/*.go "$SCR/src/zzconstructs/" || exit 2
 cp "$HERE"/simrt/*.go "$SCR/src/zzsimrt/" || exit 2
-"$HERE/bin/instrument" -root "$SCR/src" -go $GO -pkgs dhcpv4/nclient4,dhcpv6/nclient6,dhcpv4/server4,dhcpv6/server6 -report "$SCR/instrument.json" || { echo "build.sh: instrumentation failed" >&2; exit 2; }
+"$HERE/bin/instrument" -root "$SCR/src" -go $GO -pkgs dhcpv4/nclient4,dhcpv6/nclient6,dhcpv4/server4,dhcpv6/server6,zzconstructs -report "$SCR/instrument.json" || { echo "build.sh: instrumentation failed" >&2; exit 2; }
 cp "$HERE"/harness/*.go "$SCR/src/zzsimharness/" || exit 2
 (cd "$SCR/src" && $GO test -vet=off -c -o "$SCR/sim.test" ./zzsimharness) || { echo "build.sh: harness build failed" >&2; exit 2; }
 echo "built $SCR/sim.test"
